@@ -1,6 +1,6 @@
 CLAIM = ("Per decoder an inductive memory-safety step: arbitrary decoder state satisfying an explicit invariant, arbitrary callback "
          "(bytes, short reads, EOF anywhere), output buffer of exactly max_read bytes, one read(): CBMC bounds/pointer/shift checks hold, "
-         "result <= max_read, invariant re-established; init establishes the invariant.  Covers streams of any length.")
+         "result <= max_read, invariant re-established; init establishes the invariant.  Covers streams of any length.  Every index into an array member of a decoder struct is additionally asserted to lie inside that member (driver-inserted guards: CBMC checks p->member[i] only against the whole object); lha_decoder_read into a caller buffer of exactly the requested size.")
 ASSUMPTIONS = ["callback contract: stores at most buf_len bytes and returns that count",
                "lh_new table readers and tree builder are checked on scaled template parameters / scaled tree sizes (same source text)",
                "lh1 tree maintenance checked at scaled NUM_CODES (hook), copy/offset paths at real constants"]
